@@ -169,13 +169,13 @@ def search_cases(t, b):
         if p:
             for m in ('split', 'rsplit'):
                 yield m, (p,)
-                for k in (-1, 0, 1, 2, L):
+                for k in (-1, -2, 0, 1, 2, L):
                     yield m, (p, k)
             yield 'partition', (p,)
             yield 'rpartition', (p,)
         for new in ('', 'z', 'ab', p):
             yield 'replace', (p, new)
-            for k in (-1, 0, 1, 2):
+            for k in (-1, -2, 0, 1, 2):
                 yield 'replace', (p, new, k)
     yield 'len', ()
     yield 'endswith', (('a', 'b-'),)
@@ -189,7 +189,7 @@ def ws_cases(t):
             yield m, (c,)
     for m in ('split', 'rsplit'):
         yield m, ()
-        for k in (-1, 0, 1, 2):
+        for k in (-1, -3, 0, 1, 2):
             yield m, (None, k)
         yield m, (' ',)
         yield m, ('\n', 1)
